@@ -130,8 +130,9 @@ def main(run):
         "memory safety of C outside the modelled parser is a runtime fact: it is observed by "
         "sanitizers on the explored inputs and states, not proved (heap lifetime, coap_debug.c "
         "printers, block/observe/OSCORE state machines)",
-        "TCP: hostile streams are delivered to a live server stream session (stage 5, crash/trap "
-        "oracle only); WebSocket framing: not yet driven by this check (chunking safety: C05)",
+        "TCP and WebSocket: hostile streams are delivered to a live server stream session (stage 5, "
+        "crash/trap/hang oracle only; delivery semantics under chunking are C05's); WebSocket client "
+        "side (HTTP response parsing) is not driven",
         "GnuTLS and libc are not instrumented"]
     run.prove()
     model = vlib.build_model()
@@ -309,10 +310,38 @@ def main(run):
                     if len(stream) > 1 else []
                 cuts = gen_stream.cuts_to_token(pts, len(stream))
             tl.append("tcp 0 %s %s" % (stream.hex(), cuts))
+    # WebSocket server session: HTTP upgrade (valid / variant / over-long / malformed lines) then
+    # frames: valid, oversize declarations, unmasked, bad opcodes, close frames, and byte-level
+    # mutations of all of it; opt bit 0 = a second connection gets traffic between arrivals
+    if hasattr(gen_stream, "gen_ws_stream"):
+        for i in range(300 if quick else 9000):
+            stream, meta = gen_stream.gen_ws_stream(r, small=(i % 3 == 0))
+            x = r.random()
+            if x < 0.45 and len(stream) > meta["hslen"] + 1:
+                body = stream[meta["hslen"]:]
+                for _ in range(r.choice([1, 2, 3])):
+                    body = gen_wire.mutate(r, body)
+                stream = stream[:meta["hslen"]] + body
+            elif x < 0.6:
+                for _ in range(r.choice([1, 2])):
+                    stream = gen_wire.mutate(r, stream)
+            if not stream:
+                continue
+            y = r.random()
+            if y < 0.3:
+                cuts = "-"
+            elif y < 0.45:
+                cuts = "x1"
+            else:
+                pts = sorted(set(r.randrange(1, len(stream)) for _ in range(r.choice([1, 2, 3, 5])))) \
+                    if len(stream) > 1 else []
+                cuts = gen_stream.cuts_to_token(pts, len(stream))
+            tl.append("ws %d %s %s" % (r.choice([0, 0, 1]), stream.hex(), cuts))
     to, tcr = vlib.run_lines_robust(hs, tl, env=asan_env, timeout=1800)
     ntcp = 0
     for i, ln in enumerate(tl):
         run.count(ln, True)
+        run.hist("stream_kind", ln.split()[0])
         run.hist("tcp_stream_cut", "single" if ln.endswith(" -") else "bytewise" if ln.endswith(" x1") else "cuts")
         if i % 200 == 7:
             run.sample({"case": ln[:200], "impl": to[i][:160]})
@@ -323,7 +352,7 @@ def main(run):
                 if cj == i:
                     err = e
             if ntcp <= 3:
-                run.violation("sanitizer trap / crash / hang on a hostile TCP stream: " + summary_of(err),
+                run.violation("sanitizer trap / crash / hang on a hostile TCP/WebSocket stream: " + summary_of(err),
                               "case: %s\nimpl: %s\n%s\n" % (ln, to[i], err), tag="tcp%d" % ntcp)
     run.cov["tcp_stream_cases"] = len(tl)
     run.cov["tcp_stream_failures"] = ntcp
